@@ -30,6 +30,8 @@ func ValidateSpecAnnotations(name string, any interface{}) error {
 	}
 
 	switch v := any.(type) {
+	case map[string]string:
+		return validateSpecAnnotations(name, v)
 	case map[string]interface{}:
 		annotations := make(map[string]string)
 		for k, v := range v {
